@@ -427,20 +427,25 @@ func init() {
 			if a.Off {
 				mode = "off"
 			}
-			// correspondence: the Lean model of the origin logic (Model/PathsOrigin.lean: loaderDir, includeLevel,
+			// correspondence (reported only when the oracle below finds no failing input — a failure outranks a broken tie): the Lean model of the origin logic (Model/PathsOrigin.lean: loaderDir, includeLevel,
 			// extendsLevel, staged resolution) predicts the value in the loaded project
+			var tie *core.Verdict
 			if r.Err == "" {
 				for i, o := range r.Obs {
 					if m := d[i].Model; m != nil {
 						got, _ := o.Got.(string)
 						if m.Ok == nil || o.Got == nil || *m.Ok != got {
-							return core.Disagree(fmt.Sprintf("Paths.predict ≠ loader: %s=%q from %s: project has %v, the model predicts %v %s", o.Name, o.S, a.Origin, o.Got, m.Ok, m.Err))
+							tie = core.Disagree(fmt.Sprintf("Paths.predict ≠ loader: %s=%q from %s: project has %v, the model predicts %v %s", o.Name, o.S, a.Origin, o.Got, m.Ok, m.Err))
+							break
 						}
 					}
 				}
 			}
 			for i, o := range r.Obs {
 				if d[i].Want == nil {
+					if tie != nil {
+						return tie
+					}
 					return core.Skip("the property does not say")
 				}
 				want := *d[i].Want
@@ -472,7 +477,7 @@ func init() {
 					}
 				}
 			}
-			return nil
+			return tie
 		},
 	})
 }
